@@ -1,8 +1,8 @@
 (* C01 — property theorems.  Statements only: each is closed by [exact] of a lemma proved in
    coq/C01/, followed by Print Assumptions. *)
-From Coq Require Import QArith ZArith List Bool Permutation.
+From Coq Require Import QArith ZArith List Bool Permutation Qround.
 From Scenic Require Import C01.Prob C01.ProbProofs C01.Sampler C01.Prior C01.SamplerProofs C01.RejectionProofs C01.ChoiceProofs C01.ReachProofs
-  C01.WfProofs C01.Capture C01.CaptureProofs.
+  C01.WfProofs C01.Capture C01.CaptureProofs C01.RangeProofs C01.NumProofs.
 Import ListNotations.
 Open Scope Q_scope.
 
@@ -163,6 +163,96 @@ Theorem C01_choices_interval : forall cum u,
 Proof. exact choices_interval. Qed.
 Print Assumptions C01_choices_interval.
 
+(* ---- round 3: DiscreteRange with arbitrary (rational, possibly random) endpoint values ---- *)
+(* the integers a DiscreteRange(lo, hi) may yield are exactly those between the endpoints ... *)
+Theorem C01_int_between : forall lo hi k,
+  (lo <= inject_Z k /\ inject_Z k <= hi) <-> (Qceiling lo <= k <= Qfloor hi)%Z.
+Proof. exact int_between. Qed.
+Print Assumptions C01_int_between.
+(* ... each with the same probability 1 / (number of such integers), nothing else is drawn *)
+Theorem C01_ndrange_law : forall lo hi k,
+  mass (fun v => Z.eqb v k) (ndrange_tree lo hi) ==
+  if in_range lo hi k then 1 / inject_Z (Qfloor hi - Qceiling lo + 1) else 0.
+Proof. exact ndrange_law. Qed.
+Print Assumptions C01_ndrange_law.
+Theorem C01_ndrange_members : forall lo hi,
+  let l := zrange (Qceiling lo) (Z.to_nat (Qfloor hi - Qceiling lo + 1)) in
+  NoDup l /\ (forall k, In k l <-> in_range lo hi k = true) /\
+  ((Qceiling lo <= Qfloor hi)%Z -> Z.of_nat (length l) = (Qfloor hi - Qceiling lo + 1)%Z).
+Proof. exact ndrange_members. Qed.
+Print Assumptions C01_ndrange_members.
+(* the attempt is rejected iff no integer lies between the endpoints *)
+Theorem C01_ndrange_rejects : forall lo hi,
+  (forall k, in_range lo hi k = false) -> ndrange_tree lo hi = Rej.
+Proof. exact ndrange_rejects. Qed.
+Print Assumptions C01_ndrange_rejects.
+Theorem C01_ndrange_accepts : forall lo hi k,
+  in_range lo hi k = true -> rejmass (ndrange_tree lo hi) == 0.
+Proof. exact ndrange_accepts. Qed.
+Print Assumptions C01_ndrange_accepts.
+Theorem C01_randint_prob : forall lo hi k, (lo <= hi)%Z ->
+  mass (fun v => Z.eqb v k) (randint_tree lo hi) ==
+  if ((lo <=? k) && (k <=? hi))%Z then 1 / inject_Z (hi - lo + 1) else 0.
+Proof. exact randint_prob. Qed.
+Print Assumptions C01_randint_prob.
+(* the sampler model's DiscreteRange node is that law, for int and float endpoint values alike *)
+Theorem C01_sem_drange : forall a b lo hi, num a = Some lo -> num b = Some hi ->
+  sem KDRange [Some a; Some b] = bind (ndrange_tree lo hi) (fun z => Ret (VZ z)).
+Proof. exact sem_drange. Qed.
+Print Assumptions C01_sem_drange.
+(* rounding the low endpoint down instead of up admits an integer outside the range (seeded/C01-3, C19-3) *)
+Theorem C01_ndrange_floor_low_refuted :
+  exists lo hi k, in_range lo hi k = false /\ (Qfloor lo <= k <= Qfloor hi)%Z.
+Proof. exact ndrange_floor_low_refuted. Qed.
+Print Assumptions C01_ndrange_floor_low_refuted.
+
+(* weighted DiscreteRange(lo, lo+n-1, weights): lo + i with probability w_i / sum(w), nothing outside *)
+Theorem C01_wrange_prob : forall lo ws i, (i < length ws)%nat ->
+  mass (fun z => Z.eqb z (lo + Z.of_nat i)) (wrange_tree lo ws) == nth i ws 0 / qsum ws.
+Proof. exact wrange_prob. Qed.
+Print Assumptions C01_wrange_prob.
+Theorem C01_wrange_prob_out : forall lo ws z, (z < lo \/ lo + Z.of_nat (length ws) <= z)%Z ->
+  mass (fun x => Z.eqb x z) (wrange_tree lo ws) == 0.
+Proof. exact wrange_prob_out. Qed.
+Print Assumptions C01_wrange_prob_out.
+Theorem C01_sem_wrange : forall lo ws,
+  teq (sem (KDRangeW lo (accumulate 0 ws)) []) (bind (wrange_tree lo ws) (fun z => Ret (VZ z))).
+Proof. exact sem_wrange. Qed.
+Print Assumptions C01_sem_wrange.
+
+(* ---- round 3: int/float operands.  Reflected operators compute the operator on exchanged operands;
+   exchanging the operands of -, /, //, %, **, divmod is observable (seeded/C01-4); the rational path
+   agrees with the integer one *)
+Theorem C01_reflected_is_swapped : forall o o' x y,
+  unreflect o = Some o' -> apply_op o [x; y] = apply_op o' [y; x].
+Proof. exact reflected_is_swapped. Qed.
+Print Assumptions C01_reflected_is_swapped.
+Theorem C01_swapped_operands_observable :
+  Forall (fun o => exists x y, apply_op o [x; y] <> apply_op o [y; x] /\
+                               apply_op o [x; y] <> VErr /\ apply_op o [y; x] <> VErr)
+         [OSub; ODiv; OFloorDiv; OMod; OPow; ODivmod].
+Proof. exact swapped_operands_observable. Qed.
+Print Assumptions C01_swapped_operands_observable.
+Theorem C01_num_op_int_floordiv : forall a b, b <> 0%Z -> num_op OFloorDiv (VZ a) (VZ b) = VZ (a / b).
+Proof. exact num_op_int_floordiv. Qed.
+Print Assumptions C01_num_op_int_floordiv.
+Theorem C01_num_op_int_sub : forall a b, num_op OSub (VZ a) (VZ b) = VZ (a - b).
+Proof. exact num_op_int_sub. Qed.
+Print Assumptions C01_num_op_int_sub.
+
+(* non-vacuity: DiscreteRange(1/2, 5/2) yields 1 and 2 with probability 1/2 each and never 0 or 3;
+   DiscreteRange(1/4, 3/4) is rejected; the weighted range 3..5 with weights 1,2,1 yields 4 w.p. 1/2;
+   7.5 - 2 through __rsub__ *)
+Example C01_example_ranges :
+  Qred (mass (fun v => Z.eqb v 1) (ndrange_tree (1#2) (5#2))) = 1#2 /\
+  Qred (mass (fun v => Z.eqb v 0) (ndrange_tree (1#2) (5#2))) = 0 /\
+  Qred (mass (fun v => Z.eqb v 3) (ndrange_tree (1#2) (5#2))) = 0 /\
+  ndrange_tree (1#4) (3#4) = Rej /\
+  Qred (mass (fun v => Z.eqb v 4) (wrange_tree 3 [1; 2; 1])) = 1#2 /\
+  Qred (mass (fun v => Z.eqb v 1) (wrange_tree 3 [1; 2; 1])) = 0 /\
+  apply_op ORSub [VZ 2; VQ (15#2)] = VQ (11#2) /\ apply_op ODiv [VZ 3; VZ 2] = VQ (3#2) /\
+  apply_op ODivmod [VZ 7; VQ (3#2)] = VT 0%N [VZ 4; VZ 1].
+Proof. vm_compute. repeat split; reflexivity. Qed.
 
 (* non-vacuity: a 6-node program with a shared parent, a clone, one hard and one soft requirement *)
 Definition ex_g : dag :=
